@@ -1080,9 +1080,16 @@ func callBuiltin(caller *frame, callpos token.Pos, fn *ssa.Builtin, args []value
 			panic(fmt.Sprintf("cap: illegal operand: %T", x))
 		}
 
-	case "min":
-		return foldLeft(m.minV, args)
-	case "max":
+	case "min", "max":
+		m.minmaxUnsigned = false
+		if sig, ok := fn.Type().(*types.Signature); ok && sig.Params().Len() > 0 {
+			if bi := basicOf(sig.Params().At(0).Type()); bi.ok && !bi.signed && !bi.float {
+				m.minmaxUnsigned = true
+			}
+		}
+		if fn.Name() == "min" {
+			return foldLeft(m.minV, args)
+		}
 		return foldLeft(m.maxV, args)
 
 	case "real":
